@@ -45,6 +45,14 @@ CLAIMED = {
             'bounded, solver-complete inside the bound: t = Xw, unit loadings, X and Y deflation, inner relation, the code facts behind score/weight orthogonality (1 response), layout of recalculated responses and residuals for ny<=3 x nlv<=3, predictors for every presence combination of stored means/scales of either sign',
             'one latent variable from any loop state + induction; exact reals; scaling -1 inside PLS(); nonzero divisors; orthogonality facts for >= 2 responses attempted in thorough only',
             'DESIGN.md 5/C03'),
+    'C07': ('CBMC symbolic execution of the real MLR / OrdinaryLeastSquares / MatrixInversion / MLRPredictY -> SMT VC over the reals -> z3 nlsat',
+            'bounded, solver-complete inside the bound: for every real X (3 objects x 1 predictor in quick; up to 5x2 in thorough) and 1..2 responses the normal equations hold (residuals sum to zero and are orthogonal to every predictor), fitted values and predictions are intercept + x.b, R2 = 1 - RSS/TSS, SDEC = sqrt(RSS/n)',
+            'exact reals (rounding, conditioning outside); equivariance and exact recovery are consequences of the normal equations for full-rank designs; R2 within [0,1] follows from orthogonality; two-predictor designs (3x3 inverse) may stay undecided',
+            'DESIGN.md 5/C07'),
+    'C12': ('CBMC->real-arithmetic VC->z3 for MatrixInversion, SolveLSE, MatrixDeterminant, OrdinaryLeastSquares; CBMC SAT (bit-precise memory model) for the LAPACK wrappers with contract stubs',
+            'bounded, solver-complete inside the bound: M M^-1 = M^-1 M = I for every non-singular 2x2 (3x3 thorough) including zero leading entries; A x = b for n<=2 with a re-used solution vector; determinant = Leibniz sum n<=3(4); normal equations; wrappers memory-safe with conformable outputs for square n<=3 and 3x2 / 2x3',
+            'LAPACK numerics replaced by contract stubs; exact reals; SolveLSE entries of magnitude in (0,1e-3) excluded (absolute 1e-4 pivot tests); Penrose conditions and multiplicativity not decided',
+            'DESIGN.md 5/C12'),
 }
 NA = {
     'C16': 'behaviour lives inside SQLite and libc decimal formatting (FFI + file I/O); nothing of it is source in /repo that could be executed symbolically - an encoding would verify a hand-written SQL fake, not the code',
